@@ -52,6 +52,10 @@ CHECKS = {
          "Every chain within the bound at every position where a filter can be written is rendered and compared with the left-to-right composition of ApplyFilter on the same values (printed form, truthiness, iteration, error-ness); arguments bound by enclosing constructs check scoping of parameters; operators around a filtered operand check binding strength.",
          "The oracle is the implementation's ApplyFilter, as the property states; the filter list comes from the registry hook, so a newly added filter is covered.",
          "DESIGN.md §3 C19"),
+ "C08": ("bounded-exhaustive enumeration of access paths (<=2/3 dot steps + final subscript; every call form on every callable) over a fixed object graph built twice - Go values for the engine, a model tree for a step-wise reference resolver",
+         "Every path within the bound from every context root (struct pointer/value, maps with string/int keys, slices, arrays, strings, scalars, nil, funcs and methods of every accepted signature incl. variadic, *Value, implicit context, (T, error), interface-typed parameters) is rendered in three sinks and compared with the reference resolver: value, empty, or execution error - never a panic or another value. Shadowing of globals/context/tag scope is enumerated over all 16 combinations.",
+         "The model tree is written by hand parallel to the Go object graph; behaviour the property leaves open is skipped and counted (see evidence assumptions).",
+         "DESIGN.md §3 C08"),
 }
 
 NOT_YET = {}
